@@ -141,8 +141,65 @@ func TestC15Renderers(t *testing.T) {
 	vt.Check(t, 20000, 500000, func(rt *rapid.T) {
 		v := gen.Value(rt, gen.Opts{MaxDepth: 12, Budget: 16 << 10, EmptyChild: true, NoBigCounts: true})
 		it := gen.Build(rt, v, nil)
-		a, b := sml.Encode(it), it.ToSML()
 		classes := []string{"c15", "top:" + e5.Name(v.FC)}
+		// rendering history: sub-lists of the tree may be rendered on their own (at nesting level 0)
+		// before or after the tree that holds them (at level n), and the same object may sit at two
+		// depths; no rendering may depend on what was rendered before
+		var subs []secs2.Item
+		var walk func(x secs2.Item)
+		walk = func(x secs2.Item) {
+			if !x.IsList() {
+				return
+			}
+			ch, _ := x.ToList()
+			for _, c := range ch {
+				if c.IsList() && c.Size() > 0 {
+					subs = append(subs, c)
+				}
+				walk(c)
+			}
+		}
+		walk(it)
+		renderSubs := func(when string) {
+			for i, sub := range subs {
+				if i >= 6 {
+					break
+				}
+				if sa, sb := sml.Encode(sub), sub.ToSML(); sa != sb {
+					rt.Fatalf("C15 violated for a sub-list of %s rendered on its own %s: sml.Encode != Item.ToSML\n encoder: %q\n ToSML:   %q", v, when, trunc200(sa), trunc200(sb))
+				}
+			}
+		}
+		order := rapid.SampledFrom([]string{"root-only", "root-only", "subs-first", "root-then-subs"}).Draw(rt, "renderOrder")
+		if len(subs) > 0 && order != "root-only" {
+			classes = append(classes, "history:"+order)
+		}
+		if order == "subs-first" {
+			renderSubs("before the tree")
+		}
+		a, b := sml.Encode(it), it.ToSML()
+		if order == "root-then-subs" {
+			renderSubs("after the tree")
+			if b2 := it.ToSML(); b2 != b {
+				rt.Fatalf("C15 violated for %s: ToSML changed after its sub-lists were rendered on their own\n first:  %q\n second: %q", v, trunc200(b), trunc200(b2))
+			}
+		}
+		if v.FC == e5.List && len(v.List) > 0 && rapid.IntRange(0, 3).Draw(rt, "shared") == 0 {
+			// the same object at depths 1, 2 and 3 of one tree
+			sh := secs2.L(it, secs2.L(it, secs2.L(it)))
+			if sa, sb := sml.Encode(sh), sh.ToSML(); sa != sb {
+				rt.Fatalf("C15 violated for a tree holding %s at three depths: sml.Encode != Item.ToSML\n encoder: %q\n ToSML:   %q", v, trunc200(sa), trunc200(sb))
+			}
+			classes = append(classes, "history:shared-object")
+		}
+		if !hasEmptyChild(v) && v.FC != e5.Empty {
+			// a fresh, never rendered object of the same value renders the same text
+			if fresh, err := secs2.Decode(e5.Encode(v)); err == nil {
+				if fb := fresh.ToSML(); fb != b && !extremeNumeric(v) {
+					rt.Fatalf("C15 violated for %s: the tree renders differently from a fresh object of the same value (rendering history %s)\n tree:  %q\n fresh: %q", v, order, trunc200(b), trunc200(fb))
+				}
+			}
+		}
 		nontrivial := extremeNumeric(v)
 		if v.FC == e5.List {
 			for _, c := range v.List {
